@@ -79,8 +79,8 @@ func (t *TypeExpr) String() string {
 		return "[]" + t.Elem.String()
 	case "array":
 		return "[" + t.Len + "]" + t.Elem.String()
-	case "map":
-		return "map[" + t.Key.String() + "]" + t.Elem.String()
+	case "map", "gmap":
+		return t.Kind + "[" + t.Key.String() + "]" + t.Elem.String()
 	}
 	return "?"
 }
@@ -352,11 +352,11 @@ func (p *parser) parseType() *TypeExpr {
 		p.expectOp("]")
 		return &TypeExpr{Kind: "array", Len: n.val, Elem: p.parseType()}
 	}
-	if t.kind == "id" && t.val == "map" {
+	if t.kind == "id" && (t.val == "map" || t.val == "gmap") {
 		p.expectOp("[")
 		k := p.parseType()
 		p.expectOp("]")
-		return &TypeExpr{Kind: "map", Key: k, Elem: p.parseType()}
+		return &TypeExpr{Kind: t.val, Key: k, Elem: p.parseType()}
 	}
 	if t.kind == "id" {
 		if p.isOp(".") {
